@@ -908,9 +908,17 @@ def _run(spec, rec, d, S):
         if spec["seed"] % 4 == 1:
             # the documented parameter order, given positionally
             rec.cls("call:positional")
-            ds.export.hdf5(target, None if req is None else list(req), filtered,
-                           flags["logs"], flags["tables"], basins,
-                           skip_checks=skip_checks, **kw)
+            try:
+                ds.export.hdf5(target, None if req is None else list(req), filtered,
+                               logs=flags["logs"], tables=flags["tables"],
+                               basins=basins, skip_checks=skip_checks, **kw)
+            except TypeError as e:
+                if "argument" not in str(e):
+                    raise
+                rec.fail("api/positional-call-rejected",
+                         f"hdf5(path, features, filtered, logs=..., ...) in the "
+                         f"documented parameter order raises {e!r}")
+                return
         else:
             ds.export.hdf5(target, features=None if req is None else list(req),
                            filtered=filtered,
